@@ -261,6 +261,9 @@ def run(ctx, R, tier):
     from .c05 import clock_rules
     clock_rules(F, R)
     pickup_order(F, R)
+    # a setter's value is the one in use from the next callback on: nothing runs on a cached copy of a parameter's value
+    from .c06 import param_cache
+    param_cache(F, R, rule='B.C07.param-cache')
     # a life-cycle command takes effect as the documented state machine says, in every state (the C03 rules)
     from . import c03
     c03.run(ctx, R, tier)
